@@ -7,6 +7,8 @@
                                               formatting function emits for parameter p
 -/
 import Gozod.Model.GenChain
+import Gozod.Model.GenSplit
+import Gozod.Model.GenEmit
 namespace Gozod.Drv.C13
 open Gozod Gozod.Tags Gozod.GenChain
 
@@ -19,7 +21,63 @@ def renderRunes (s : List Nat) : String := if s.isEmpty then "-" else ".".interc
 
 def parseRules (s : String) : Option (List TRule) := (s.splitOn "+").mapM TRule.ofString?
 
+/-! round 2: the generator's own tag parser, and the text it emits for a field -/
+
+def renderList (xs : List (List Nat)) : String :=
+  if xs.isEmpty then "~" else ";".intercalate (xs.map renderRunes)
+
+def renderRule (r : TagParser.Rule) : String :=
+  renderRunes r.name ++ ":" ++ (match r.params with | none => "~" | some ps => "/".intercalate (ps.map renderRunes))
+
+def renderRules : Except String (List TagParser.Rule) → String
+  | .error e => "err:" ++ e
+  | .ok rs => if rs.isEmpty then "~" else ";".intercalate (rs.map renderRule)
+
+/-- SPEC side (written over the tagparser model only): gozodgen documents that it refuses a rule with `=`
+    and a blank parameter ("rule requires a parameter") or a blank name; the first such part decides. -/
+def specRefuses (tag : List Nat) : Option String :=
+  if tag.isEmpty then none else
+  (TagParser.splitParts tag).findSome? fun part =>
+    let part := TagParser.trimSpace part
+    let (name, raw, ok) := TagParser.cutEq part
+    if part.isEmpty || !ok then none
+    else if (TagParser.trimSpace raw).isEmpty then some "err:param"
+    else if (TagParser.trimSpace name).isEmpty then some "err:name"
+    else none
+
+def kindOf (gotype : String) : Option (GenEmit.Kind × Bool) :=
+  let ptr := gotype.startsWith "*"
+  let base := if ptr then (gotype.drop 1).toString else gotype
+  match base with
+  | "string" => some (.string, ptr) | "int" => some (.int, ptr)
+  | "int64" => some (.int64, ptr) | "float64" => some (.float64, ptr)
+  | _ => none
+
 def handle : List String → String
+  | ["split", s, "|", ref] =>
+    match parseRunes s with
+    | some s =>
+      let parts := "parts=" ++ renderList (GenSplit.genSplit s)
+      let m := parts ++ " rules=" ++ renderRules (GenSplit.genParseTag s)
+      -- the tagparser model must read what the real tagparser read (cross-check of C06's tie)
+      let drift := if renderRules (TagParser.parseTag false s) == ref then "" else " !tagparser-model-drift"
+      let sp := parts ++ " rules=" ++ (specRefuses s).getD ref
+      m ++ drift ++ "\t" ++ sp ++ "\t" ++ GenSplit.parseReason s
+    | none => "bad-op"
+  | ["wcompile", _, _, _] => "ok ok"
+  | ["wsame", _, _, _] => "same same"
+  | ["wbuild"] => "ok ok"
+  | ["wexpr", gotype, _, tag] =>
+    match parseRunes tag, kindOf gotype with
+    | some tag, some (k, ptr) =>
+      match GenEmit.emitField k ptr tag with
+      | some e => "expr=" ++ renderRunes e
+      | none => "?"
+    | _, _ => "?"
+  | ["wcell", _, _, tag, _, "|", _] =>
+    match parseRunes tag with
+    | some tag => GenSplit.parseReason tag
+    | none => "bad-op"
   | ["gen"] => "ok ok"
   | ["compile", _, _] => "ok ok"
   | ["sample", _, _] => "same same"
